@@ -202,6 +202,15 @@ Theorem C19_layout_stride_of_contiguous : forall l t e idx, wf_ity t ->
 Proof. exact strided_of_contiguous. Qed.
 Print Assumptions C19_layout_stride_of_contiguous.
 
+(* the default-constructed layout_stride mapping (the code after fix d746fe9) has the default extents, the strides
+   of layout_right over them and therefore layout_right's offsets *)
+Theorem C19_layout_stride_default : forall t p idx, wf_ity t ->
+  st_ext (strided_default t p) = ext_default p
+  /\ st_strides (strided_default t p) = lay_strides LRight t (ext_default p)
+  /\ strided_map t (strided_default t p) idx = lay_map LRight t (ext_default p) idx.
+Proof. exact strided_default_spec. Qed.
+Print Assumptions C19_layout_stride_default.
+
 (** * layout_transpose *)
 Theorem C19_transpose_formula : forall l t ne i j, wf_ity t -> rank ne = 2%nat ->
   in_range [i; j] (rev (extents_list t ne)) -> product (extents_list t ne) <= imax t ->
